@@ -166,6 +166,20 @@ fn open_fds() -> usize {
     std::fs::read_dir("/proc/self/fd").map(|d| d.count()).unwrap_or(0)
 }
 
+/// descriptor count once it stopped changing (helper threads of an earlier case may still be closing theirs)
+fn stable_fds() -> usize {
+    let mut last = open_fds();
+    for _ in 0..40 {
+        std::thread::sleep(Duration::from_millis(1));
+        let now = open_fds();
+        if now == last {
+            return now;
+        }
+        last = now;
+    }
+    last
+}
+
 thread_local! {
     static SOCK_CTR: RefCell<u64> = const { RefCell::new(0) };
 }
@@ -826,6 +840,79 @@ async fn dsend(sock: &UdpSocket, to: Option<std::net::SocketAddr>, kind: &str, c
     }
 }
 
+type DRecv = io::Result<(usize, Vec<Mem>, Option<std::net::SocketAddr>, Option<(usize, usize, u32)>)>;
+
+async fn drecv_call(sock: &UdpSocket, kind: &str, mut mems: Vec<Mem>) -> DRecv {
+    match kind {
+        "plain" => {
+            let BufResult(r, m) = sock.recv(mems.pop().unwrap()).await;
+            r.map(|n| (n, vec![m], None, None))
+        }
+        "vec" => {
+            let BufResult(r, m) = sock.recv_vectored(mems).await;
+            r.map(|n| (n, m, None, None))
+        }
+        "from" => {
+            let BufResult(r, m) = sock.recv_from(mems.pop().unwrap()).await;
+            r.map(|(n, a)| (n, vec![m], Some(a), None))
+        }
+        "fromvec" => {
+            let BufResult(r, m) = sock.recv_from_vectored(mems).await;
+            r.map(|(n, a)| (n, m, Some(a), None))
+        }
+        "msg" => {
+            let BufResult(r, (m, c)) = sock.recv_msg(mems.pop().unwrap(), AncillaryBuf::<64>::new()).await;
+            r.map(|(n, cl, a, fl)| (n, vec![m], Some(a), Some((cl, c.as_init().len(), fl.bits() as u32))))
+        }
+        "msgvec" => {
+            let BufResult(r, (m, c)) = sock.recv_msg_vectored(mems, AncillaryBuf::<64>::new()).await;
+            r.map(|(n, cl, a, fl)| (n, m, Some(a), Some((cl, c.as_init().len(), fl.bits() as u32))))
+        }
+        other => panic!("bad datagram recv kind {other}"),
+    }
+}
+
+#[allow(clippy::too_many_arguments)]
+fn drecv_finish(ex: &RefCell<Exec>, line: &str, w: &mut DgramWorld, d: usize, drv: &str, kind: &str, shapes: &str, r: DRecv) -> String {
+    let cap: usize = mem_caps(&parse_shapes(shapes)).iter().sum();
+    match r {
+        Ok((n, mems, from, ctl)) => {
+            // what the caller reads back: the first min(cap_i, remaining) visible bytes of each member
+            let mut data = vec![];
+            let mut left = n;
+            for m in &mems {
+                if left == 0 {
+                    break;
+                }
+                let k = m.capn().min(left);
+                data.extend_from_slice(&m.vis()[..k.min(m.vis().len())]);
+                left -= k;
+            }
+            let fname = from.map(|a| from_name(w, Some(a)));
+            let gap = kind.contains("vec") && has_prefilled_gap(&parse_shapes(shapes));
+            if gap && data.len() < n {
+                // finding F141 (recorded for streams as well): the received bytes are hidden
+                w.queue[d].pop_front();
+                ex.borrow_mut().fail("F141:recv-vectored-prefilled", format!("{line}: n={n} caller sees [{}]", show_mems(&mems)));
+            } else {
+                check_dgram(ex, line, w, d, drv, kind, &data, cap, fname, ctl.map(|c| c.2 & MSG_TRUNC != 0));
+                if n != data.len() {
+                    ex.borrow_mut().fail("C14:dgram-mismatch", format!("{line}: n={n} but {} bytes visible", data.len()));
+                }
+            }
+            let mut o = format!("n={n} {}", show_mems(&mems));
+            if let Some(fname) = fname {
+                o.push_str(&format!(" from={fname}"));
+            }
+            if let Some((cl, cv, fl)) = ctl {
+                o.push_str(&format!(" ctl={cl}:{cv} flags={}", flag_str(fl)));
+            }
+            o
+        }
+        Err(e) => err_str(&e),
+    }
+}
+
 async fn lock_dgram(case: &Case, tp: &str, drv: &str, buflen: usize, tos: bool, ex: &RefCell<Exec>, caps: &RefCell<Caps>) -> Vec<String> {
     let (a, b, aa, ba) = dgram_pair(tp, tos).await;
     let mut w = DgramWorld { socks: [a, b], addrs: [aa, ba], queue: [VecDeque::new(), VecDeque::new()] };
@@ -850,80 +937,39 @@ async fn lock_dgram(case: &Case, tp: &str, drv: &str, buflen: usize, tos: bool, 
                     Err(e) => err_str(&e),
                 }
             }
+            "dpre" => {
+                // the receive is submitted first and completes when the datagram arrives
+                let (rkind, shapes, skind) = (f[2], f[3], f[4]);
+                let chunks = parse_chunks(f[5]);
+                let flat = chunks.concat();
+                ex.borrow_mut().tag(format!("drecv-{rkind}"));
+                ex.borrow_mut().tag(format!("dsend-{skind}"));
+                ex.borrow_mut().tag("recv-before-send");
+                let mems = parse_shapes(shapes);
+                let (r, sres) = futures_util::join!(drecv_call(&w.socks[p], rkind, mems), async {
+                    compio_runtime::time::sleep(Duration::from_millis(1)).await;
+                    dsend(&w.socks[d], w.addrs[p], skind, chunks, ex, caps).await
+                });
+                let so = match sres {
+                    Ok(n) => {
+                        w.queue[d].push_back(flat);
+                        format!("sent {n}")
+                    }
+                    Err(e) => err_str(&e),
+                };
+                let ro = drecv_finish(ex, line, &mut w, d, drv, rkind, shapes, r);
+                format!("{so} | {ro}")
+            }
             _ if w.queue[d].is_empty() => "idle".to_string(),
             "drecv" => {
                 if !readable(w.socks[p].as_raw_fd(), 3000) {
                     ex.borrow_mut().fail("C14:dgram-mismatch", format!("{line}: datagram sent but never arrived"));
                 }
                 let kind = f[2];
-                let mut mems = parse_shapes(f[3]);
-                let cap: usize = mem_caps(&mems).iter().sum();
+                let mems = parse_shapes(f[3]);
                 ex.borrow_mut().tag(format!("drecv-{kind}"));
-                let sock = &w.socks[p];
-                type R = io::Result<(usize, Vec<Mem>, Option<std::net::SocketAddr>, Option<(usize, usize, u32)>)>;
-                let r: R = match kind {
-                    "plain" => {
-                        let BufResult(r, m) = sock.recv(mems.pop().unwrap()).await;
-                        r.map(|n| (n, vec![m], None, None))
-                    }
-                    "vec" => {
-                        let BufResult(r, m) = sock.recv_vectored(mems).await;
-                        r.map(|n| (n, m, None, None))
-                    }
-                    "from" => {
-                        let BufResult(r, m) = sock.recv_from(mems.pop().unwrap()).await;
-                        r.map(|(n, a)| (n, vec![m], Some(a), None))
-                    }
-                    "fromvec" => {
-                        let BufResult(r, m) = sock.recv_from_vectored(mems).await;
-                        r.map(|(n, a)| (n, m, Some(a), None))
-                    }
-                    "msg" => {
-                        let BufResult(r, (m, c)) = sock.recv_msg(mems.pop().unwrap(), AncillaryBuf::<64>::new()).await;
-                        r.map(|(n, cl, a, fl)| (n, vec![m], Some(a), Some((cl, c.as_init().len(), fl.bits() as u32))))
-                    }
-                    "msgvec" => {
-                        let BufResult(r, (m, c)) = sock.recv_msg_vectored(mems, AncillaryBuf::<64>::new()).await;
-                        r.map(|(n, cl, a, fl)| (n, m, Some(a), Some((cl, c.as_init().len(), fl.bits() as u32))))
-                    }
-                    other => panic!("bad datagram recv kind {other}"),
-                };
-                match r {
-                    Ok((n, mems, from, ctl)) => {
-                        // what the caller reads back: the first min(cap_i, remaining) visible bytes of each member
-                        let mut data = vec![];
-                        let mut left = n;
-                        for m in &mems {
-                            if left == 0 {
-                                break;
-                            }
-                            let k = m.capn().min(left);
-                            data.extend_from_slice(&m.vis()[..k.min(m.vis().len())]);
-                            left -= k;
-                        }
-                        let fname = from.map(|a| from_name(&w, Some(a)));
-                        let gap = kind.contains("vec") && has_prefilled_gap(&parse_shapes(f[3]));
-                        if gap && data.len() < n {
-                            // finding F141 (recorded for streams as well): the received bytes are hidden
-                            w.queue[d].pop_front();
-                            ex.borrow_mut().fail("F141:recv-vectored-prefilled", format!("{line}: n={n} caller sees [{}]", show_mems(&mems)));
-                        } else {
-                            check_dgram(ex, line, &mut w, d, drv, kind, &data, cap, fname, ctl.map(|c| c.2 & MSG_TRUNC != 0));
-                            if n != data.len() {
-                                ex.borrow_mut().fail("C14:dgram-mismatch", format!("{line}: n={n} but {} bytes visible", data.len()));
-                            }
-                        }
-                        let mut o = format!("n={n} {}", show_mems(&mems));
-                        if let Some(fname) = fname {
-                            o.push_str(&format!(" from={fname}"));
-                        }
-                        if let Some((cl, cv, fl)) = ctl {
-                            o.push_str(&format!(" ctl={cl}:{cv} flags={}", flag_str(fl)));
-                        }
-                        o
-                    }
-                    Err(e) => err_str(&e),
-                }
+                let r = drecv_call(&w.socks[p], kind, mems).await;
+                drecv_finish(ex, line, &mut w, d, drv, kind, f[3], r)
             }
             "drecvm" => {
                 readable(w.socks[p].as_raw_fd(), 3000);
@@ -1126,6 +1172,7 @@ async fn conc_writer(w: Rc<S>, spec: Vec<(String, Vec<usize>)>, seed: u64, d: u6
 async fn conc_reader(r: Rc<S>, spec: Vec<(String, Vec<usize>)>, seed: u64, d: u64, ex: Rc<RefCell<Exec>>) -> RxSummary {
     let mut sum = RxSummary { len: 0, hash: 0xcbf2_9ce4_8422_2325, eof: false, bad_at: None, err: None };
     let mut i = 0usize;
+    let mut busy = 0usize;
     if spec.is_empty() {
         return sum;
     }
@@ -1150,6 +1197,12 @@ async fn conc_reader(r: Rc<S>, spec: Vec<(String, Vec<usize>)>, seed: u64, d: u6
                     Ok(None) => {
                         sum.eof = true;
                         return sum;
+                    }
+                    Err(e) if e.kind() == io::ErrorKind::ResourceBusy && busy < 5000 => {
+                        // the pool is shared with the other reader's multishot stream: retry
+                        busy += 1;
+                        ex.borrow_mut().tag("managed-enobufs");
+                        compio_runtime::time::sleep(Duration::from_micros(200)).await;
                     }
                     Err(e) => {
                         sum.err = Some(err_str(&e));
@@ -1324,7 +1377,7 @@ async fn accept_case(line: &str, ex: Rc<RefCell<Exec>>) -> String {
     let (tp, drv, mode) = (f[1], f[2], f[3]);
     let k: usize = f[4].parse().unwrap();
     let extra: usize = f[5].parse().unwrap();
-    let base = open_fds();
+    let base = stable_fds();
     let mut ids: Vec<u8> = vec![];
     let mut closed = 0usize;
     {
@@ -1393,7 +1446,7 @@ async fn accept_case(line: &str, ex: Rc<RefCell<Exec>>) -> String {
         // listener + yielded connections + client ends must be all that is open
         let now = open_fds();
         let expect = base + 1 + conns.len() + clients.len();
-        if now != expect {
+        if now > expect {
             ex.borrow_mut().fail("C14:fd-leak", format!("{line}: {now} descriptors open while listener, {} yielded and {} client sockets are alive (expected {expect})", conns.len(), clients.len()));
         }
         // which of the never-yielded connections were closed by compio (the client sees end of stream / reset)?
@@ -1414,7 +1467,7 @@ async fn accept_case(line: &str, ex: Rc<RefCell<Exec>>) -> String {
     }
     compio_runtime::time::sleep(Duration::from_millis(5)).await;
     let end = open_fds();
-    if end != base {
+    if end > base {
         ex.borrow_mut().fail("C14:fd-leak", format!("{line}: {end} descriptors open after everything was dropped, {base} before"));
     }
     let mut sorted = ids.clone();
@@ -1768,7 +1821,24 @@ fn gen_lock_dgram(rng: &mut Rng, idx: usize, tp: &str, drv: &str) -> Case {
         let p = rng.below(2) as usize;
         let pn = ["a", "b"][p];
         let d = 1 - p;
-        if rng.chance(1, 2) && pend[p] < 6 {
+        if pend[d] == 0 && rng.chance(1, 4) {
+            // receive first, then send (p receives from the other peer)
+            let rkinds: &[&str] = if tp == "udp" { &["plain", "vec", "from", "fromvec", "msg", "msgvec"] } else { &["plain", "vec"] };
+            let rkind = *rng.pick(rkinds);
+            let max = *rng.pick(&[4usize, 64, 800]);
+            let shapes = if rkind.contains("vec") {
+                (0..rng.range(1, 3)).map(|_| format!("v{}:-", rng.range(1, max as u64))).collect::<Vec<_>>().join(";")
+            } else {
+                format!("v{}:-", rng.range(1, max as u64))
+            };
+            let skinds: &[&str] = if tp == "udp" { &["plain", "vec", "to", "msg", "zc", "tozc"] } else { &["plain", "vec"] };
+            let skind = *rng.pick(skinds);
+            let mut ch = gen_chunks(rng, skind.contains("vec"), 600);
+            if ch.split(',').all(|h| h == "-") {
+                ch = "5a".into();
+            }
+            lines.push(format!("dpre {pn} {rkind} {shapes} {skind} {ch}"));
+        } else if rng.chance(1, 2) && pend[p] < 6 {
             let kinds: &[&str] = if tp == "udp" {
                 &["plain", "vec", "to", "tovec", "msg", "msgvec", "zc", "zcvec", "tozc", "tozcvec", "msgzc", "msgzcvec"]
             } else {
@@ -1991,10 +2061,10 @@ fn gen_ms(rng: &mut Rng, idx: usize, tp: &str, drv: &str) -> Case {
 }
 
 fn generate(tier: &str, rng: &mut Rng) -> Vec<Case> {
-    let scale = if tier == "thorough" { 8 } else { 1 };
+    let scale = if tier == "thorough" { 5 } else { 1 };
     let mut cases = vec![];
     let mut idx = 0;
-    for _ in 0..(80 * scale) {
+    for _ in 0..(70 * scale) {
         for tp in ["tcp", "unix"] {
             for drv in ["uring", "poll"] {
                 idx += 1;
@@ -2012,11 +2082,11 @@ fn generate(tier: &str, rng: &mut Rng) -> Vec<Case> {
             }
         }
     }
-    for _ in 0..(60 * scale) {
+    for _ in 0..(50 * scale) {
         idx += 1;
         cases.push(gen_rmo(&mut rng.fork(), idx));
     }
-    for k in 0..(20 * scale) {
+    for k in 0..(16 * scale) {
         for tp in ["tcp", "unix"] {
             for drv in ["uring", "poll"] {
                 idx += 1;
@@ -2024,7 +2094,7 @@ fn generate(tier: &str, rng: &mut Rng) -> Vec<Case> {
             }
         }
     }
-    for _ in 0..(80 * scale) {
+    for _ in 0..(70 * scale) {
         for tp in ["udp", "udg"] {
             for drv in ["uring", "poll"] {
                 idx += 1;
